@@ -146,6 +146,10 @@ class C12(Prop):
                                                  model_parallel_group=('group', group_of(r, mp_lists)))
                 except Exception as e:  # noqa: BLE001
                     return 'construction', f'rank {r}: GPTNeoXAssignment raised {type(e).__name__}: {e}'
+                # the preconditioner reads the stage group once per registered layer (so a rank whose stage has no layer never reads
+                # it): whatever group creation that triggers still counts as "groups this rank created"
+                for _layer in work:
+                    getattr(insts[r], 'pipe_parallel_peer_group', None)
             # decoys: further assignment objects over the same layer names but other costs, created afterwards and kept alive while
             # the ones under test are queried (objects must not share state)
             decoys = []
